@@ -21,9 +21,9 @@ CHECKS = {
     note="Assumes the stub <vector>/<set> are a faithful contract of the standard containers; -Dauto=const_iterator and -Dprivate=public are the only substitutions. add() excluded (unreachable, asserts on *end())."),
  "C18": dict(
     engine="E1+E3", category="other", design_ref="DESIGN.md 4/C18, 3 (K19-K22, K22b, K22c), 10.16",
-    technique="CBMC DFCC contracts on extracted fp.hpp functions: full-domain proof of the loop-free paths and of get_mult_inverse against ext_gcd's contract; loop contracts with quantified invariants on the extracted SpVecFP::operator+ (all five loops; <=2/3 entries, every index, value and modulus below 2^15) and operator*(scalar) (all three loops; <=4/8 entries; the product expression opaque, its range assumed); unwinding-bounded Euclid loop, is_prime and the other SpVecFP operations; native exhaustive grids incl. cpp_int; native replay of counterexamples",
+    technique="CBMC DFCC contracts on extracted fp.hpp functions: full-domain proof of the loop-free paths and of get_mult_inverse against ext_gcd's contract; loop contracts with quantified invariants on the extracted SpVecFP::operator+ (all five loops; <=2/3 entries, every index, value and modulus below 2^15) and operator*(scalar) (all three loops; <=4/8 entries; the product expression opaque, its range and overflow-freedom by the loop-free lemma unit K22c_expr); unwinding-bounded Euclid loop, is_prime and the other SpVecFP operations; native exhaustive grids incl. cpp_int; native replay of counterexamples",
     text="Proof over all int64 for ext_gcd's zero-argument paths and for get_mult_inverse modulo ext_gcd's contract; SpVecFP::operator+ proved for operands of <=2/3 entries (canonical result, every coordinate = (a+b) mod p, nothing lost) and SpVecFP::operator*(scalar) for <=4/8 entries relative to the range of `(value * a) % p`; bounded (unwinding) for the Euclid loop, is_prime and the remaining SpVecFP operations; bounded native enumeration for long and cpp_int incl. SpVecFP histories. Found and repaired: ext_gcd(a<0,0), is_prime(2).",
-    note="Machine integers treated as such (arguments > T_MIN); in K22c `(value * a) % p` is assumed not to overflow (|a|, p < 2^15) and to lie in (-p, p); congruence step p*y mod p = 0 and all cpp_int behaviour only checked natively; libm sqrt assumed to be floor sqrt."),
+    note="Machine integers treated as such (arguments > T_MIN); in K22c the scalar and modulus are below 2^15 (K22c_expr: no overflow, remainder in (-p, p)); congruence step p*y mod p = 0 and all cpp_int behaviour only checked natively; libm sqrt assumed to be floor sqrt."),
  "C10": dict(
     engine="E1+E3", category="other", design_ref="DESIGN.md 4/C10, 3 (K24,K25)",
     technique="CBMC DFCC contract on the extracted fgets/strip step with fgets/strlen contracts and a ghost index (proof for every 1024-byte buffer), on the extracted edge-line branch with the sscanf contract (undeclared vertex => error, default weight 1; proof), loop contracts on the three extracted predicates (has_loops / has_non_positive_weights unbounded in m with a ghost edge, has_multiple_edges n<=5 with quantified invariants) + bounded enforcement of the reader/validator contracts against a grammar enumerator",
